@@ -383,6 +383,9 @@ func (s *c01Store) Sync(ctx context.Context, muts []replication.Mutation) []repl
 				m.Manifest.ChannelEpoch, m.Manifest.LeaderTerm, m.Manifest.FenceVersion, m.Manifest.BaseOffset+1, m.Manifest.LastOffset,
 				m.Committed, res[i].Outcome, res[i].NeedFrom)
 			s.f.cnt[fmt.Sprintf("store.sync.%s.outcome%d", c01ClassLetter(m.Class), res[i].Outcome)]++
+			if res[i].NeedFrom > 0 {
+				s.f.cnt["store.sync.follower_reported_gap_need_from"]++
+			}
 		}
 	}
 	s.f.mu.Unlock()
